@@ -4,7 +4,7 @@
    Reading guide.  api_f i = Refused  means: the validation blocks of f, evaluated in source order on
    the input abstraction i, raise ValueError; `Refused` carries no value ("before any result is
    returned").  Every theorem is an implication  <documented error class present at ANY position k,
-   everything else arbitrary>  ->  Refused.  Where an undocumented exception can come first in source
+   everything else arbitrary (up to the stated in-range / otherwise-valid premises)>  ->  Refused.  Where an undocumented exception can come first in source
    order (IndexError on circuit.data[k]) the theorem assumes the indices are in range.
    The *_frame theorems are the "arguments are not modified" part for the three entry points that
    can mutate their argument (inplace=True); for all others the argument snapshots are compared by
@@ -104,12 +104,12 @@ Theorem c18_pp_valid : forall i,
 Proof. exact pp_valid. Qed.
 (* fifth guard (idle group): observable j acts non-trivially on a qubit q whose label is None ... *)
 Theorem c18_pp_idle_explicit : forall i l o j q,
-  pp_labels i = Some l -> pp_obs i = Some o -> j < length (pp_support i) -> In q (nth j (pp_support i) []) ->
+  pp_labels i = Some l -> pp_obs i = Some o -> o <> [] -> j < length (pp_support i) -> In q (nth j (pp_support i) []) ->
   nth q l None = None -> api_partition_problem i = Refused.
 Proof. exact pp_idle_explicit. Qed.
 (* ... or, with automatic labels, on a qubit that no instruction touches *)
 Theorem c18_pp_idle_auto : forall i o j q,
-  pp_labels i = None -> pp_obs i = Some o -> j < length (pp_support i) -> In q (nth j (pp_support i) []) ->
+  pp_labels i = None -> pp_obs i = Some o -> o <> [] -> j < length (pp_support i) -> In q (nth j (pp_support i) []) ->
   q < pp_nq i -> touched (pp_insts i) q = false -> api_partition_problem i = Refused.
 Proof. exact pp_idle_auto. Qed.
 
@@ -128,8 +128,11 @@ Theorem c18_pcq_unsupported : forall i k d,
   gi_kind g = KOp d -> length (gi_qs g) = 2 -> spanned (pq_labels i) (gi_qs g) <> 1 ->
   api_from_instruction d = Refused -> api_pcq i = Refused.
 Proof. exact pcq_unsupported. Qed.
-(* F12 (repaired behaviour): a refusal leaves the argument circuit untouched, also with inplace=True *)
-Theorem c18_pcq_frame : forall i, api_pcq i <> Proceeds -> pcq_final i = map is_qpd2 (pq_insts i).
+(* DEFINITIONAL (an unfolding of pcq_final := match api_pcq with Ok => mutated | _ => untouched): "validate, then
+   mutate" is how the MODEL is built for this function.  What ties it to the source is (1) the correspondence
+   (observed state of the argument after every inplace=True call) and (2) the position fact c18_pcq_stores_dominated
+   below: on the regenerated control skeleton no raise site is reachable after a store into circuit.data. *)
+Theorem c18_pcq_frame_def : forall i, api_pcq i <> Proceeds -> pcq_final i = map is_qpd2 (pq_insts i).
 Proof. exact pcq_frame. Qed.
 Theorem c18_pcq_valid : forall i,
   length (pq_labels i) = pq_nq i -> existsb (pcq_refuses (pq_labels i)) (pq_insts i) = false -> api_pcq i = Proceeds.
@@ -144,13 +147,13 @@ Theorem c18_cg_unsupported : forall i,
   (exists k, In k (cg_ids i) /\ api_from_instruction (nth k (cg_ops i) qpd_desc) = Refused) ->
   api_cut_gates i = Refused.
 Proof. exact cg_unsupported. Qed.
-(* F13 (repaired behaviour) *)
 (* the same without the in-range hypothesis: the call never proceeds (ValueError, or IndexError from an earlier id) *)
 Theorem c18_cg_unsupported_total : forall i k,
   In k (cg_ids i) -> (forall d, nth_error (cg_ops i) k = Some d -> api_from_instruction d = Refused) ->
   api_cut_gates i <> Proceeds.
 Proof. exact cg_unsupported_total. Qed.
-Theorem c18_cg_frame : forall i, api_cut_gates i <> Proceeds -> cg_final i = repeat false (length (cg_ops i)).
+(* DEFINITIONAL, like c18_pcq_frame_def; source tie: correspondence + c18_cg_stores_dominated *)
+Theorem c18_cg_frame_def : forall i, api_cut_gates i <> Proceeds -> cg_final i = repeat false (length (cg_ops i)).
 Proof. exact cg_frame. Qed.
 Theorem c18_cg_valid : forall i,
   cg_ncregs i = 0 -> cg_nclbits i = 0 ->
@@ -285,28 +288,28 @@ Theorem c18_dq_total : forall i,
   ids_in_range (dq_circ i) (dq_ids i) -> dq_total_mismatch (dq_circ i) (dq_ids i) = true -> api_decompose i = Refused.
 Proof. intros i H1 H2. apply decompose_of_validate_refused. now apply dq_total. Qed.
 Theorem c18_dq_map_count : forall i ms,
-  dq_validate i = Proceeds -> dq_maps i = Some ms ->
+  ids_in_range (dq_circ i) (dq_ids i) -> dq_maps i = Some ms ->
   length (dq_ids i) <> length ms -> api_decompose i = Refused.
-Proof. exact dq_map_count. Qed.
+Proof. exact dq_map_count_r. Qed.
 (* map index outside the basis: the j-th map id, for any gate k of the j-th decomposition *)
 Theorem c18_dq_map_range : forall i ms j k b n bid z,
-  dq_validate i = Proceeds -> dq_maps i = Some ms ->
+  ids_in_range (dq_circ i) (dq_ids i) -> dq_maps i = Some ms ->
   j < length (dq_ids i) -> In k (nth j (dq_ids i) []) -> nth_error (dq_circ i) k = Some (DQ b n bid) ->
   nth j ms None = Some z -> (z < 0 \/ Z.of_nat n <= z)%Z ->
   api_decompose i = Refused.
-Proof. exact dq_map_range. Qed.
+Proof. exact dq_map_range_r. Qed.
 (* a None ENTRY of map_ids is refused by the same pre-validation *)
 Theorem c18_dq_map_none : forall i ms j k b n bid,
-  dq_validate i = Proceeds -> dq_maps i = Some ms ->
+  ids_in_range (dq_circ i) (dq_ids i) -> dq_maps i = Some ms ->
   j < length (dq_ids i) -> In k (nth j (dq_ids i) []) -> nth_error (dq_circ i) k = Some (DQ b n bid) ->
   nth j ms None = None -> api_decompose i = Refused.
-Proof. exact dq_map_none. Qed.
+Proof. exact dq_map_none_r. Qed.
 (* map_ids omitted and some gate (any position k) has no basis_id: refused before any rewriting *)
 Theorem c18_dq_unset_no_maps : forall i k b n,
-  dq_validate i = Proceeds -> dq_maps i = None ->
+  ids_in_range (dq_circ i) (dq_ids i) -> dq_maps i = None ->
   nth_error (dq_circ i) k = Some (DQ b n None) ->
   api_decompose i = Refused /\ dq_final i = dq_circ i.
-Proof. exact dq_unset_no_maps. Qed.
+Proof. exact dq_unset_no_maps_r. Qed.
 (* the same four classes of _validate_qpd_instructions without the in-range hypothesis: never Proceeds *)
 Theorem c18_dq_group_size_total : forall i g,
   In g (dq_ids i) -> length g <> 1 -> length g <> 2 -> api_decompose i <> Proceeds.
@@ -343,6 +346,10 @@ Proof. exact validate_covers. Qed.
    IndexError) leaves the argument circuit untouched, also with inplace=True *)
 Theorem c18_dq_frame_total : forall i, api_decompose i <> Proceeds -> dq_final i = dq_circ i.
 Proof. exact dq_frame_total. Qed.
+Theorem c18_dq_valid_no_maps : forall i,
+  dq_validate i = Proceeds -> dq_maps i = None -> existsb dq_unset (dq_circ i) = false ->
+  api_decompose i = Proceeds /\ dq_final i = dq_circ i.
+Proof. exact dq_valid_no_maps. Qed.
 Theorem c18_dq_valid : forall i ms,
   dq_validate i = Proceeds -> dq_maps i = Some ms ->
   length (dq_ids i) = length ms -> dq_check (dq_circ i) (combine (dq_ids i) ms) = true ->
@@ -368,6 +375,8 @@ Proof. exact basis_valid. Qed.
 (* ---------------- QPD gates: map index outside the basis, too-large half index ---------------- *)
 Theorem c18_bid_range : forall nmaps b, (b < 0 \/ Z.of_nat nmaps <= b)%Z -> api_set_basis_id nmaps (Some b) = Refused.
 Proof. exact bid_range. Qed.
+Theorem c18_bid_valid : forall nmaps b, (0 <= b < Z.of_nat nmaps)%Z -> api_set_basis_id nmaps (Some b) = Proceeds.
+Proof. exact bid_valid. Qed.
 Theorem c18_q1_half : forall nq nmaps qid bid, (Z.of_nat nq <= qid)%Z -> api_q1gate nq nmaps qid bid = Refused.
 Proof. exact q1_half. Qed.
 Theorem c18_q1_bid : forall nq nmaps qid b, (b < 0 \/ Z.of_nat nmaps <= b)%Z -> api_q1gate nq nmaps qid (Some b) = Refused.
@@ -413,6 +422,10 @@ Proof. exact sim_conditioned. Qed.
 Theorem c18_sim_clbits : forall insts k, k < length insts ->
   si_nonunitary (nth k insts dflt_sim) = false -> si_nclbits (nth k insts dflt_sim) <> 0 -> api_simulate insts = Refused.
 Proof. exact sim_clbits. Qed.
+Theorem c18_sim_valid : forall insts, existsb sim_refuses insts = false -> api_simulate insts = Proceeds.
+Proof. exact sim_valid. Qed.
+Theorem c18_cog_valid : forall l, any_phase l = false -> api_cog l = Proceeds.
+Proof. exact cog_valid. Qed.
 Theorem c18_mgo_empty : forall n, api_mgo [] n = Refused.
 Proof. exact mgo_empty. Qed.
 Theorem c18_mgo_not_pauli : forall obs n, In None obs -> api_mgo obs n = Refused.
@@ -650,28 +663,56 @@ Print Assumptions c18_facts_decompose_guards.
 Close Scope string_scope.
 From CKT Require Import Model.ValidationSkel Proofs.ValidationSkelP.
 Open Scope string_scope.
-Example skeleton_simulate : skeleton_of "utils.simulation:simulate_statevector_outcomes" = Some sk_simulate.
+(* THE TIE TO THE SOURCE: the skeleton regenerated from the current Python source decodes to exactly these trees
+   (Model/ValidationSkel.v sk_...).  Registered: if extraction fails or any guard moves, these break. *)
+Example c18_skeleton_simulate : skeleton_of "utils.simulation:simulate_statevector_outcomes" = Some sk_simulate.
 Proof. reflexivity. Qed.
-Example skeleton_reconstruct : skeleton_of "cutting_reconstruction:reconstruct_expectation_values" = Some sk_reconstruct.
+Example c18_skeleton_reconstruct : skeleton_of "cutting_reconstruction:reconstruct_expectation_values" = Some sk_reconstruct.
 Proof. reflexivity. Qed.
-Example skeleton_partition_problem : skeleton_of "cutting_decomposition:partition_problem" = Some sk_partition_problem.
+Example c18_skeleton_partition_problem : skeleton_of "cutting_decomposition:partition_problem" = Some sk_partition_problem.
+Proof. reflexivity. Qed.
+Example c18_skeleton_pcq : skeleton_of "cutting_decomposition:partition_circuit_qubits" = Some sk_partition_circuit_qubits.
+Proof. reflexivity. Qed.
+Example c18_skeleton_cut_gates : skeleton_of "cutting_decomposition:cut_gates" = Some sk_cut_gates.
+Proof. reflexivity. Qed.
+Example c18_skeleton_decompose : skeleton_of "qpd.decompose:decompose_qpd_instructions" = Some sk_decompose.
 Proof. reflexivity. Qed.
 
-Theorem c18_skel_simulate : forall sk i,
-  skeleton_of "utils.simulation:simulate_statevector_outcomes" = Some sk -> run_simulate sk i = api_simulate i.
-Proof. intros sk i H. rewrite skeleton_simulate in H. inversion H. apply skel_simulate. Qed.
-Theorem c18_skel_reconstruct : forall sk i,
-  skeleton_of "cutting_reconstruction:reconstruct_expectation_values" = Some sk -> run_reconstruct sk i = api_reconstruct i.
-Proof. intros sk i H. rewrite skeleton_reconstruct in H. inversion H. apply skel_reconstruct. Qed.
-(* pp_wf: the abstraction carries one support entry per observable (checked on every correspondence case) *)
-Theorem c18_skel_partition_problem : forall sk i,
-  skeleton_of "cutting_decomposition:partition_problem" = Some sk -> pp_wf i ->
-  run_partition_problem sk i = api_partition_problem i.
-Proof. intros sk i H W. rewrite skeleton_partition_problem in H. inversion H. now apply skel_partition_problem. Qed.
+(* executing those trees over the input abstraction IS the hand-written decision function, for every input *)
+Theorem c18_skel_simulate : forall i, run_simulate sk_simulate i = api_simulate i.
+Proof. exact skel_simulate. Qed.
+Theorem c18_skel_reconstruct : forall i, run_reconstruct sk_reconstruct i = api_reconstruct i.
+Proof. exact skel_reconstruct. Qed.
+Theorem c18_skel_partition_problem : forall i, run_partition_problem sk_partition_problem i = api_partition_problem i.
+Proof. exact skel_partition_problem. Qed.
+
+(* POSITION of the stores relative to the raise sites in the three functions that can modify their argument
+   (`dominated`, Model/ValidationSkel.v: syntactic, on the regenerated tree): in partition_circuit_qubits and cut_gates
+   no statement that can refuse is reachable after a store into circuit.data (two-pass loops of F12/F13) ... *)
+Example c18_pcq_stores_dominated : dominated sk_partition_circuit_qubits = true.
+Proof. reflexivity. Qed.
+Example c18_cg_stores_dominated : dominated sk_cut_gates = true.
+Proof. reflexivity. Qed.
+(* ... whereas decompose_qpd_instructions calls _decompose_qpd_instructions (unset-basis_id check) AFTER the
+   assignment loop: its frame is not syntactic, it is the semantic argument of c18_dq_frame_total
+   (c18_dq_validate_covers: after validation every QPD gate has just been assigned).  The tree c18_skeleton_decompose
+   pins that the length guard and the pre-check loop precede the assignment loop. *)
+Example c18_dq_stores_not_dominated : dominated sk_decompose = false.
+Proof. reflexivity. Qed.
+(* the historic interleaved shape (F12: store inside the checking loop) is rejected by the check *)
+Example c18_ex_interleaved_not_dominated :
+  dominated [SFor "(i, instruction) in enumerate(circuit.data)"
+               [SIf (GAtom "len(qubit_indices) > 2") [SRaise] []; SCall "from_instruction"; SMutate "circuit.data[i]"]] = false.
+Proof. reflexivity. Qed.
 (* non-vacuity: a well-formed input on which the executed skeleton refuses at the LAST guard (idle group) *)
 Example c18_ex_skel_pp :
   let i := mkPp 2 (Some [Some 0; None]) (Some [(2, 0)]) 0 0 [mkG (KOp xd) [0]] [[1]] in
-  pp_wf i /\ run_partition_problem sk_partition_problem i = Refused.
+  run_partition_problem sk_partition_problem i = Refused.
+Proof. reflexivity. Qed.
+(* the case the audit found: observables = [] (falsy) with a stray support entry: skeleton and model both proceed *)
+Example c18_ex_empty_observables :
+  let i := mkPp 2 (Some [Some 0; None]) (Some []) 0 0 [mkG (KOp xd) [0]] [[1]] in
+  run_partition_problem sk_partition_problem i = Proceeds /\ api_partition_problem i = Proceeds.
 Proof. split; reflexivity. Qed.
 (* the C18-r3-2 shape: with the condition guard moved into the gate branch a conditioned reset is executed *)
 Example c18_ex_skel_moved_guard :
@@ -681,4 +722,39 @@ Example c18_ex_skel_moved_guard :
                       SIf (GAtom "len(inst.clbits) != 0") [SRaise] []]]; SReturn] in
   run_simulate moved [mkSim true true 0] = Proceeds /\ api_simulate [mkSim true true 0] = Refused.
 Proof. split; reflexivity. Qed.
+(* ---------------- instances for the entry points without one above ---------------- *)
+Example c18_ex_generate :   (* dict form, the phased observable is the last of the 2nd subsystem; without it: accepted;
+                               an observables label missing from circuits: KeyError before the size check *)
+  api_generate (mkGen CDict ODict (BNum (4 # 1)) [[GOther; GQpd1 true]; [GQpd1 true]] [[0; 0]; [0; 2]] [(true, true); (true, true)]) = Refused /\
+  api_generate (mkGen CDict ODict (BNum (4 # 1)) [[GOther; GQpd1 true]; [GQpd1 true]] [[0; 0]; [0; 0]] [(true, true); (true, true)]) = Proceeds /\
+  api_generate (mkGen CDict ODict (BNum (4 # 1)) [[GQpd1 true]] [[0]; [0]] [(false, true); (true, false)]) = Crashed /\
+  api_generate (mkGen CCircuit OPauliList BNaN [[GQpd2]] [] [(true, true)]) = Refused.
+Proof. repeat split; reflexivity. Qed.
+Example c18_ex_find_cuts :   (* ccx anywhere / unbound rzz / a 3-qubit barrier is fine *)
+  api_find_cuts (mkFc [mkG (KOp cxd) [0; 1]; mkG (KOp ccxd) [0; 1; 2]] (BNum (1024 # 1)) None) = Refused /\
+  api_find_cuts (mkFc [mkG (KOp rzz_unbound) [0; 1]] (BNum (1024 # 1)) None) = Refused /\
+  api_find_cuts (mkFc [mkG (KOp cxd) [0; 1]; mkG KBarrier [0; 1; 2]] (BNum (1024 # 1)) (Some (BNum (0 # 1)))) = Proceeds /\
+  api_find_cuts (mkFc [mkG (KOp cxd) [0; 1]] (BNum (1 # 2)) None) = Refused.
+Proof. repeat split; reflexivity. Qed.
+Example c18_ex_separate :    (* a barrier across partitions is split and accepted; a cx across them is not; None label on a used qubit *)
+  api_separate (mkSep 3 (Some [Some 0; Some 1; Some 1]) [(true, [0; 1; 2]); (false, [1; 2])]) = Proceeds /\
+  api_separate (mkSep 3 (Some [Some 0; Some 1; Some 1]) [(false, [1; 2]); (false, [0; 1])]) = Refused /\
+  api_separate (mkSep 3 (Some [Some 0; Some 1; None]) [(true, [0; 1; 2])]) = Refused /\
+  api_separate (mkSep 3 (Some [Some 0; Some 1]) []) = Refused.
+Proof. repeat split; reflexivity. Qed.
+Example c18_ex_expand : api_expand 2 [7; 8] [9; 8; 7] = Proceeds /\ api_expand 3 [7; 8] [9; 8; 7] = Refused /\ api_expand 2 [7; 8] [9; 8] = Refused.
+Proof. repeat split; reflexivity. Qed.
+Example c18_ex_mgo :         (* X and Z on the same qubit, only in the last observable *)
+  api_mgo [Some [1; 0]; Some [0; 3]; Some [1; 3]] None = Proceeds /\
+  api_mgo [Some [1; 0]; Some [0; 3]; Some [3; 3]] None = Refused /\
+  api_mgo [Some [1; 0]; None] (Some 2) = Refused /\ api_mgo [Some [1; 0]; Some [1]] None = Refused.
+Proof. repeat split; reflexivity. Qed.
+Example c18_ex_qpdbasis :
+  api_qpdbasis [2; 2; 2] 3 = Proceeds /\ api_qpdbasis [2; 2; 1] 3 = Refused /\ api_qpdbasis [3] 1 = Refused /\
+  api_qpdbasis [2; 2] 3 = Refused.
+Proof. repeat split; reflexivity. Qed.
+Example c18_ex_qpd_gates :   (* a negative half index is accepted (observation), a too-large one and a bad map index are not *)
+  api_q1gate 2 6 1%Z (Some 5%Z) = Proceeds /\ api_q1gate 2 6 2%Z None = Refused /\ api_q1gate 2 6 (-1)%Z None = Proceeds /\
+  api_q1gate 2 6 0%Z (Some (-1)%Z) = Refused /\ api_q2gate 1 6 None = Refused /\ api_q2gate 2 6 (Some 6%Z) = Refused.
+Proof. repeat split; reflexivity. Qed.
 Print Assumptions c18_skel_simulate. Print Assumptions c18_skel_reconstruct. Print Assumptions c18_skel_partition_problem.
